@@ -155,16 +155,19 @@ fn gen_spec(ch: &mut Ch) -> Spec {
         rounds.push((50 * MS, usize::MAX, true));
     }
     let faults = ch.below(10, "o.faulty") >= 3;
-    let nc = 2 + ch.below(5, "o.nclients") as usize;
+    // now and then a crowd of observers (more than any small fixed capacity)
+    let crowd = !long && ch.chance(1, 25, "o.crowd");
+    let nc = if crowd { 17 + ch.below(32, "o.nclients.crowd") as usize } else { 2 + ch.below(5, "o.nclients") as usize };
     let mut clients = Vec::new();
     for ci in 0..nc {
-        let nops = 1 + ch.below(if long { 12 } else { 6 }, "o.nops") as usize;
+        let nops = 1 + ch.below(if long { 12 } else if crowd { 2 } else { 6 }, "o.nops") as usize;
         let mut ops = Vec::new();
         let mut t = ch.below(60, "o.op.t0") * MS;
         // every client starts by registering somewhere
         let tl = ch.below(9, "o.toklen") as usize;
         let mk_tok = |ch: &mut Ch, n: usize| -> Vec<u8> { (0..n).map(|_| ch.below(4, "o.tokbyte") as u8).collect() };
-        ops.push((t, Op::Register { path: ch.below(np as u64, "o.op.path") as usize, token: mk_tok(ch, tl) }));
+        let first_path = if crowd && !ch.chance(1, 8, "o.crowd.elsewhere") { 0 } else { ch.below(np as u64, "o.op.path") as usize };
+        ops.push((t, Op::Register { path: first_path, token: mk_tok(ch, tl) }));
         for _ in 1..nops {
             t += ch.below(horizon / nops as u64 + 1, "o.op.gap");
             let op = match ch.weighted(&[30, 20, 12, 12, 10, 8, 8], "o.op.kind") {
@@ -351,6 +354,17 @@ impl World {
                                 clause.1,
                                 format!("after {}: observer ep{} of {:?} has count {} pending {:?}, reference model says {} / {:?}", what, r.0, p, u, pend, mo.unacked, mo.pending),
                             ));
+                            // an acknowledgement that, by the reference, left
+                            // this resource exactly as it was and took effect
+                            // on another one: one resource's operation changed
+                            // another resource's observers (C14)
+                            if op == 4 {
+                                let unchanged_by_model = before.get(&p).map_or(false, |b| b.len() == m.obs.len() && b.iter().zip(m.obs.iter()).all(|(x, mo)| x.2.map(|v| v as u32) == Some(mo.unacked) && x.3 == Some(mo.pending)));
+                                let effect_elsewhere = self.all_paths().iter().any(|q| *q != p && before.get(q).map_or(false, |b| *b != self.snapshot_real(q)));
+                                if unchanged_by_model && effect_elsewhere {
+                                    self.viol.push(Violation::new("C14", "other-resource-untouched", format!("{} took effect on one resource and also changed observer ep{} of another resource {:?}: count {} pending {:?}, was {} / {:?}", what, r.0, p, u, pend, mo.unacked, mo.pending)).with_sig("ack-crosses-resources"));
+                                }
+                            }
                             if op == 1 {
                                 // C15 counts "since its last acknowledgement
                                 // or registration": a count that survives a
